@@ -110,7 +110,7 @@ func c04Edits(t *rapid.T, w *kit.World, tag string) []kit.Line {
 	ns := rapid.IntRange(0, 3).Draw(t, tag+"-nsub")
 	for i := 0; i < ns; i++ {
 		cidr := rapid.SampledFrom([]string{"10.0.0.1/32", "10.0.0.0/8", "0.0.0.0/0", "::/0", "2001:db8::1/128", "2001:db8::/33", "10.0.0.2/31", "192.0.2.0/25"}).Draw(t, tag+"-cidr")
-		m := rapid.SampledFrom([]string{"\x00\x01", "zm", "\xff\xff"}).Draw(t, tag+"-map")
+		m := rapid.SampledFrom([]string{"\x00\x01", "zm", "\xff\xff", "m0", "m9", "\x00\x06"}).Draw(t, tag+"-map")
 		lo := rapid.SampledFrom([]string{"l1", "l2", "La", foreignLoc}).Draw(t, tag+"-subloc")
 		dup := false
 		for _, x := range out {
